@@ -49,6 +49,14 @@ def ionq_circuit(cirq, cirq_ionq, rng, native):
                             cirq.XPowGate(exponent=e, global_shift=gen.rand_shift(rng)), cirq.ZPowGate(exponent=e, global_shift=gen.rand_shift(rng)), cirq.S, cirq.T**-1, cirq.X, cirq.H**1.0])
         else:
             g = rng.choice([cirq.CNOT, cirq.SWAP, cirq.XX**e, cirq.YY**e, cirq.ZZ**e, cirq.XXPowGate(exponent=e, global_shift=gen.rand_shift(rng)), cirq.CNOT**1.0])
+        if not native and rng.random() < 0.2:
+            # a Pauli-string rotation on 1..3 qubits in any order (IonQ `pauliexp`); only non-negative evolution times are accepted
+            kk = rng.randint(1, n)
+            tq = rng.sample(qs, kk)
+            ps = cirq.DensePauliString([rng.choice([cirq.X, cirq.Y, cirq.Z, cirq.I]) for _ in tq], coefficient=rng.choice([1, 1, -1]))
+            en, ep = sorted([rng.choice([0, 0.25, 0.5, rng.uniform(0, 1)]), rng.choice([0, 0.1, rng.uniform(0, 1)])], reverse=True)
+            ops.append(cirq.PauliStringPhasorGate(ps, exponent_neg=en, exponent_pos=ep).on(*tq))
+            continue
         ops.append(g.on(*t))
     # terminal measurements: one or two keys on qubit subsets in any order
     meas = []
@@ -78,6 +86,11 @@ def ionq_gates_to_lean(body):
                 out.append({'family': 'native', 'name': name, 'qs': list(g['targets']), 'params': [common.f2b(0.0), common.f2b(0.0), common.f2b(g['phase'])]})
             else:
                 out.append({'family': 'native', 'name': '?' + name, 'qs': [0], 'params': []})
+        elif name == 'pauliexp':
+            if len(g['terms']) != 1:
+                out.append({'family': 'qis', 'name': '?pauliexp-multi', 'qs': [0], 'params': []})
+            else:
+                out.append({'family': 'pauliexp', 'name': g['terms'][0], 'qs': list(g['targets']), 'params': [common.f2b(float(g['time']) * float(g['coefficients'][0]))]})
         else:
             if name == 'cnot':
                 qs = [g['control'], g['target']]
@@ -109,6 +122,11 @@ def check_ionq(ctx, cirq, cirq_ionq, n):
         except ValueError as e:
             ctx.count('ionq_rejected', str(e)[:50])
             continue
+        except Exception as e:  # noqa: BLE001  (the pauliexp limitation is reported with a non-ValueError exception class)
+            if type(e).__name__ != 'NotSupportedPauliexpParameters':
+                raise
+            ctx.count('ionq_rejected', 'negative pauliexp time')
+            continue
         body = prog.input
         unitary_part = cirq.Circuit(op for op in circuit.all_operations() if not cirq.is_measurement(op))
         nq = body['qubits']
@@ -128,7 +146,9 @@ def check_ionq(ctx, cirq, cirq_ionq, n):
                 if got != singles:
                     ctx.report_witness('ionq:many', 'serialize_many_circuits differs from serializing each circuit by itself', {'lines': [{'circuits': [repr(circuit), repr(c2)]}], 'impl_out': [got],
                                                                                                                          'spec_out': [singles], 'theorem_or_correspondence': 'payload'})
-            except ValueError as e:
+            except Exception as e:  # noqa: BLE001
+                if not isinstance(e, ValueError) and type(e).__name__ != 'NotSupportedPauliexpParameters':
+                    raise
                 ctx.count('ionq_rejected', 'many:' + str(e)[:40])
     outs = ctx.driver.ask(reqs)
     for j, (circuit, body, metadata, meas) in enumerate(meta):
@@ -136,6 +156,7 @@ def check_ionq(ctx, cirq, cirq_ionq, n):
         nontrivial = sum(1 for g in body['circuit']) >= 2
         ctx.case(['ionq', repr(circuit)], nontrivial, sample={'payload': json.dumps(body)[:400]} if nontrivial and len(ctx.samples) < 2 else None)
         ctx.count('check', 'ionq-unitary:' + body['gateset'])
+        body['circuit'] = [g for g in body['circuit'] if g]  # (an identity phasor is serialized as an empty entry)
         for g in body['circuit']:
             ctx.count('ionq_gate', g['gate'])
         rep = {'lines': [{'circuit': repr(circuit), 'payload': body, 'metadata': metadata}]}
